@@ -664,6 +664,15 @@ func (gen *Generator) GenerateCallBySymbol(sym *SexpSymbol, args []Sexp, orig Se
 	case "macexpand":
 		return gen.GenerateMacexpand(args)
 	case "syntaxQuote":
+		if len(args) == 1 {
+			if pair, isPair := args[0].(*SexpPair); isPair {
+				if sym, isSym := pair.Head.(*SexpSymbol); isSym && sym.name == "unquote-splicing" {
+					// nothing to splice into: the elements used to be
+					// left on the data stack
+					return fmt.Errorf("unquote-splicing (~@) must be inside a list or array template")
+				}
+			}
+		}
 		return gen.GenerateSyntaxQuote(args)
 	case "include":
 		return gen.GenerateInclude(args)
